@@ -42,13 +42,17 @@ Step(e) ==
             LET hd == N.hs[h]
                 o == e.hs[h] IN
             CASE hd.st = "open" /\ ~hd.stale ->
-                   F(o.cls = "ok" /\ SeqToSet(o.c0) = N.store[hd.n][hd.u].docs["c0"] /\ SeqToSet(o.c1) = N.store[hd.n][hd.u].docs["c1"]
-                       /\ o.dd = N.store[hd.n][hd.u].dd /\ o.has1 = N.store[hd.n][hd.u].c1,
-                     {"C13"} \cup (IF a.kind = "Drop" THEN {"C11"} ELSE {}), e, <<"open-handle-view", h, M.hs[a.h].st>>,
-                     <<N.store[hd.n][hd.u].docs["c0"], N.store[hd.n][hd.u].docs["c1"], N.store[hd.n][hd.u].dd, N.store[hd.n][hd.u].c1>>, <<o.cls, o.c0, o.c1, o.dd, o.has1>>)
+                   LET st == N.store[hd.n][hd.u]
+                       same(c, got) == SeqToSet(got) = st.docs[c]
+                       \* a deviation in a collection other than the one the call addressed is (also) a breach of isolation
+                       other == \/ (a.c # "c0" /\ ~same("c0", o.c0)) \/ (a.c # "c1" /\ ~same("c1", o.c1)) \/ (a.c # "c2" /\ ~same("c2", o.c2)) IN
+                   F(o.cls = "ok" /\ same("c0", o.c0) /\ same("c1", o.c1) /\ same("c2", o.c2) /\ o.dd = st.dd /\ o.has1 = st.c1,
+                     {"C13"} \cup (IF a.kind = "Drop" \/ (a.kind = "Write" /\ other) THEN {"C11"} ELSE {}), e, <<"open-handle-view", h, M.hs[a.h].st>>,
+                     <<st.docs["c0"], st.docs["c1"], st.docs["c2"], st.dd, st.c1>>, <<o.cls, o.c0, o.c1, o.c2, o.dd, o.has1>>)
               [] hd.st = "open" /\ hd.stale ->
-                   F(o.cls = "ok" /\ SeqToSet(o.c0) = N.store[hd.n][hd.u].docs["c0"], {"C13"}, e, <<"open-handle-view", h, "stale">>,
-                     N.store[hd.n][hd.u].docs["c0"], <<o.cls, o.c0>>)
+                   F(o.cls = "ok" /\ SeqToSet(o.c0) = N.store[hd.n][hd.u].docs["c0"] /\ SeqToSet(o.c2) = N.store[hd.n][hd.u].docs["c2"],
+                     {"C13"} \cup (IF a.kind = "Write" /\ a.c = "c1" THEN {"C11"} ELSE {}), e, <<"open-handle-view", h, "stale">>,
+                     <<N.store[hd.n][hd.u].docs["c0"], N.store[hd.n][hd.u].docs["c2"]>>, <<o.cls, o.c0, o.c2>>)
               [] hd.st = "closed" -> F(o.cls = "closed", {"C13"}, e, <<"closed-handle-usable", h>>, "closed", o.cls)
               [] OTHER -> 0
         \* registry
